@@ -218,6 +218,11 @@ func (a *asyncFifoRetryImpl) retry(ctx context.Context) (breakLoop bool) {
 				// the dispatcher) is still repaired and gets its event; try again at the next tick
 				return true
 			}
+			if !errors.Is(err, storage.ErrCASFailed) {
+				// the rewrite failed for a reason other than a changed key (storage error): the
+				// uncertain write is still unrepaired, keep it queued and try again at the next tick
+				return true
+			}
 		}
 	}
 
